@@ -66,8 +66,37 @@ Fixpoint run_steps (x : st) (l : list (cstep * list (string * hobs))) : bool :=
 
 Definition ccase_ok (c : ccase) : bool := run_steps (empty_state, []) (csteps c).
 
-Definition mismatches (cs : list ccase) : list N :=
-  map cid (filter (fun c => negb (ccase_ok c)) cs).
+(* ---- the tracker alone: the real tracker.NewTracker() driven through its public API ---- *)
+Inductive top :=
+| TTrack (a b : node)                                   (* TrackRefs / TrackNames *)
+| TQuery (input : list node) (remove : bool) (obs : list node)   (* QueryLinks, flattened *)
+| TClear.                                               (* ClearLinks *)
+
+Record tcase := { tid : N; tops : list top }.
+
+Definition node_set_eqb (a b : list node) : bool := mset_eqb node_eqb a b.
+
+Fixpoint run_tops (T : ctracker) (l : list top) : bool :=
+  match l with
+  | [] => true
+  | TTrack a b :: r => run_tops (track T a b) r
+  | TClear :: r => run_tops [] r
+  | TQuery input rm obs :: r =>
+      match query_remove node_eqb T input with
+      | None => false
+      | Some (out, T') => node_set_eqb out obs && run_tops (if rm then T' else T) r
+      end
+  end.
+
+Definition tcase_ok (c : tcase) : bool := run_tops [] (tops c).
+
+Inductive acase := CH (c : ccase) | CT (c : tcase).
+
+Definition mismatches (cs : list acase) : list N :=
+  flat_map (fun a => match a with
+                     | CH c => if ccase_ok c then [] else [cid c]
+                     | CT c => if tcase_ok c then [] else [tid c]
+                     end) cs.
 
 (* diagnostics: index of the first failing step and the hosts that differ there *)
 Fixpoint first_bad (n : nat) (x : st) (l : list (cstep * list (string * hobs))) : option (nat * list string) :=
